@@ -42,6 +42,7 @@ def main():
                 os.makedirs(VERIF_OUT + "/contracts", exist_ok=True)
                 for f in os.listdir("/verif/contracts"):
                     shutil.copy("/verif/contracts/" + f, VERIF_OUT + "/contracts/" + f)
+                shutil.copy("/verif/known_findings.json", VERIF_OUT + "/known_findings.json")
                 r = sh("/verif/bin/govc", "check", "-repo", SCR, "-verif", VERIF_OUT, "-props", m["prop"], "-noreplay")
                 viol = [l for l in r.stdout.splitlines() if l.startswith("VIOLATION")]
                 hit = [l for l in viol if ("obligation=" + m["expect"]) in l]
